@@ -25,6 +25,17 @@ and every `agent.learn(experiences, n_experiences)` call is inspected row by row
 in row i of both batches, 1-step row = raw stream transition, n-step row = legal fusion from its
 start; the final storages are compared with the Lean model fed with the recorded stream.
 
+Sampler suite: the real `Sampler` objects in every flag combination (standard, per, n_step, per + n_step; for
+`__init__` every memory class x dataset x dataloader combination) on provenance-encoded buffers that are
+filled and sampled by the statements of `train_off_policy`; each returned batch is diffed with `sampleBlock true`
+/ `samplerMode` of Model/NStep.lean (`nstep sample`, `nstep mode`) fed with the indices the implementation drew:
+rows of both batches, extra axes (PER's (batch, 1) index column), the `idxs` entry.  Oracle: one record per row
+in both batches, same number of rows, row i of either describes the same (obs, action), the 1-step rows are the
+records stored at the indices handed on.  The train-loop suite additionally checks that
+`memory.update_priorities` receives the indices sampled for that learn() call.  The source of this path
+(`ReplayBuffer.sample`, `PrioritizedReplayBuffer.sample`, `sample_from_indices`, `Sampler`, the sampling / storing
+statements of `train_off_policy`) is translated by harness/py2lean_sampler.py into Gen/SamplerGen.lean (pre_gate).
+
 Consumer suite: the real 1-step (uniform / prioritised) and n-step buffers are filled from scripted
 streams with episode ends in every slot, sampled through `Sampler` as the loop does, and handed to
 the REAL `RainbowDQN.learn` (per on/off, combined_reward on/off, n >= 2) of identically seeded
@@ -747,11 +758,28 @@ def run_loop(cfg: dict, fault: str | None = None, guard_s: float = 90.0) -> dict
                 bad = True
         res["bad_calls"] += bad
 
+    last_idxs = {"sampled": None, "updates": 0}
+
     for agent in pop:
         def wrapped_learn(experiences, n_experiences=None, per=False, _orig=agent.learn, **kw):
             check_batches(experiences, n_experiences)
+            last_idxs["sampled"] = (experiences["idxs"].reshape(-1).tolist()
+                                    if "idxs" in experiences.keys() else None)
             return _orig(experiences, n_experiences=n_experiences, per=per, **kw)
         agent.learn = wrapped_learn          # instance attribute: the class is left untouched
+
+    if per:                                  # the priorities must go to the indices that were sampled
+        mb_update = mb.update_priorities
+
+        def recording_update(indices, priorities):
+            last_idxs["updates"] += 1
+            got = torch.as_tensor(indices).reshape(-1).tolist()
+            if got != last_idxs["sampled"]:
+                note(res["learn_calls"], "memory.update_priorities received other indices than the ones sampled for "
+                                         "this learn() call", {"updated": got, "sampled": last_idxs["sampled"]})
+                res["bad_calls"] += 1
+            return mb_update(indices, priorities)
+        mb.update_priorities = recording_update
 
     def on_alarm(signum, frame):
         raise _LoopTimeout()
@@ -778,6 +806,9 @@ def run_loop(cfg: dict, fault: str | None = None, guard_s: float = 90.0) -> dict
             env.close()
         except Exception:
             pass
+    if per and not res["problems"] and last_idxs["updates"] != res["learn_calls"]:
+        note(res["learn_calls"], f"{res['learn_calls']} learn() calls with PER but {last_idxs['updates']} "
+                                 f"memory.update_priorities calls", {})
     res["stream"] = stream
     res["ncells"] = [_cell_str(_loop_cell(nb.storage[j])) for j in range(len(nb))] if nb.storage is not None else []
     res["ocells"] = [_cell_str(_loop_cell(mb.storage[j])) for j in range(len(mb))] if mb.storage is not None else []
@@ -1248,6 +1279,277 @@ def consumer_replay_obj(cfg, problems, facts, flatten: bool) -> dict:
             "suite": "harness/c10.py consumer suite (metamorphic, no model involved)"}
 
 
+# ----------------------------------------------------------------------------- sampler suite
+# The real `Sampler` objects in every flag combination (standard, per, n_step, per + n_step) on provenance-encoded
+# transitions.  The buffers are filled by the storing statements of train_off_policy, the samplers are created and
+# called by its sampling statements (`sampler.sample(batch, beta)` / `sampler.sample(batch, return_idx=…)`,
+# `n_step_sampler.sample(experiences["idxs"])`), and every returned batch is diffed with `sampleBlock true` of
+# Model/NStep.lean (`nstep sample`) fed with the indices the implementation drew: rows of both batches, extra axes,
+# the index entry and its shape.  `Sampler.__init__`'s choice of method is diffed with `samplerMode` (`nstep mode`).
+# Oracle (independent of the model): both batches have one record per row and the same number of rows, row i of
+# either describes the same (obs, action), the 1-step row is the record stored at the index handed on, PER hands
+# out weights for the same rows.
+SAMPLER_MODES = {"sample_standard": "standard", "sample_per": "per", "sample_n_step": "nstep",
+                 "sample_distributed": "distributed"}
+
+
+def sampler_mode_cases():
+    """(model class token, dataset given, dataloader given, dataloader is a torch DataLoader)"""
+    out = []
+    for cls in ("none", "replay", "multistep", "prioritized", "multiagent", "other"):
+        for ds, lg, lt in ((0, 0, 0), (1, 0, 0), (0, 1, 1), (1, 1, 1), (1, 1, 0)):
+            out.append((cls, ds, lg, lt))
+    return out
+
+
+def sampler_mode_impl(cls: str, ds: int, lg: int, lt: int) -> str:
+    import types
+    import warnings
+
+    from torch.utils.data import DataLoader
+
+    from agilerl.components.multi_agent_replay_buffer import MultiAgentReplayBuffer
+    from agilerl.components.replay_buffer import (MultiStepReplayBuffer, PrioritizedReplayBuffer,
+                                                  ReplayBuffer)
+    from agilerl.components.sampler import Sampler
+    mem = {"none": lambda: None, "replay": lambda: ReplayBuffer(4), "multistep": lambda: MultiStepReplayBuffer(4, 2, 0.5),
+           "prioritized": lambda: PrioritizedReplayBuffer(4, 0.6),
+           "multiagent": lambda: MultiAgentReplayBuffer(4, ["obs"], ["a"]), "other": lambda: object()}[cls]()
+    dataset = types.SimpleNamespace(buffer=None, batch_size=1) if ds else None
+    loader = None if not lg else (DataLoader([0]) if lt else [0])
+    with warnings.catch_warnings():
+        warnings.simplefilter("ignore")
+        try:
+            smp = Sampler(memory=mem, dataset=dataset, dataloader=loader)
+        except AssertionError:
+            return "reject"
+    name = getattr(getattr(smp.sample, "__func__", smp.sample), "__name__", "?")
+    return SAMPLER_MODES.get(name, name)
+
+
+def sampler_run(cfg: dict):
+    """fill the buffers and run the sampling statements as train_off_policy does; returns (lines, ops, problems, facts)"""
+    from agilerl.components.replay_buffer import (MultiStepReplayBuffer, PrioritizedReplayBuffer,
+                                                  ReplayBuffer)
+    from agilerl.components.sampler import Sampler
+    seed = cfg["seed"]
+    torch.manual_seed(seed)
+    np.random.seed(seed % (1 << 31))
+    random.seed(seed)
+    n, m, cap, per, has_n, B = cfg["n"], cfg["m"], cfg["cap"], cfg["per"], cfg["has_n"], cfg["batch"]
+    g = Fraction(*cfg["gamma"])
+    memory = PrioritizedReplayBuffer(max_size=cap, alpha=0.6) if per else ReplayBuffer(max_size=cap)
+    n_step_memory = MultiStepReplayBuffer(max_size=cap, n_step=n, gamma=float(g)) if has_n else None
+    # the model: an n-step run; without an n-step memory the 1-step buffer holds the raw stream = a run with n = 1
+    ops = [f"nstep new {n if has_n else 1} {frac_str(g)} {m} {cap} {cap} 1"]
+    for t, row in enumerate(cfg["steps"]):
+        transition = make_transition(t, row, False)
+        if n_step_memory is not None:                       # the storing statements of train_off_policy
+            one_step_transition = n_step_memory.add(transition)
+            if one_step_transition is not None:
+                memory.add(one_step_transition)
+        else:
+            memory.add(transition)
+        cells = []
+        for e, (r, d) in enumerate(row):
+            c = code(t, e)
+            cells += [str(c), str(ACT + c), frac_str(Fraction(*r)), str(c + NXT), "1" if d else "0"]
+        ops.append("nstep add " + " ".join(cells))
+    lines = ["ok"] + ["*"] * len(cfg["steps"])             # the adds are the business of the stream suite
+    problems, facts = [], {}
+    if len(memory) < B:
+        return None
+    sampler = Sampler(memory=memory)
+    n_step_sampler = Sampler(memory=n_step_memory) if n_step_memory is not None else None
+    mode = lambda s: SAMPLER_MODES.get(getattr(getattr(s.sample, "__func__", s.sample), "__name__", "?"), "?")
+    facts["sampler_mode"] = mode(sampler)
+    facts["n_step_sampler_mode"] = mode(n_step_sampler) if n_step_sampler is not None else None
+    ops.append(f"nstep mode {'prioritized' if per else 'replay'} 0 0 0")
+    lines.append(facts["sampler_mode"])
+    if has_n:
+        ops.append("nstep mode multistep 0 0 0")
+        lines.append(facts["n_step_sampler_mode"])
+    fields = ("obs", "action", "reward", "next_obs", "done")
+    slot_of = {}
+    for j, c in enumerate(decode_storage(memory)):
+        slot_of.setdefault(c, j)
+    for rep in range(cfg.get("samples", 3)):
+        # the sampling statements of train_off_policy
+        if per:
+            experiences = sampler.sample(B, 0.4)
+            n_step_experiences = n_step_sampler.sample(experiences["idxs"]) if n_step_memory is not None else None
+        else:
+            experiences = sampler.sample(B, return_idx=True if n_step_memory is not None else False)
+            n_step_experiences = n_step_sampler.sample(experiences["idxs"]) if n_step_memory is not None else None
+        k = int(experiences.batch_size[0]) if len(experiences.batch_size) else -1
+        one_extra = len(experiences.batch_size) - 1
+        one_rows, n_rows = [], []
+        try:
+            one_rows = [decode_cell({f: experiences[f].reshape(k, -1)[i] for f in fields}) for i in range(k)]
+        except Exception as ex:
+            problems.append(f"the 1-step batch cannot be read row by row ({type(ex).__name__}: {ex})"[:200])
+        drawn = [slot_of.get(c) for c in one_rows]
+        idx_txt, idx_vals = "-", None
+        if "idxs" in experiences.keys():
+            it = experiences["idxs"]
+            idx_vals = it.reshape(-1).tolist()
+            idx_txt = f"{it.dim() - 1}:" + ",".join(str(v) for v in idx_vals)
+            if len(idx_vals) == len(drawn) and drawn != idx_vals:
+                problems.append(f"1-step rows {one_rows} are not the records stored at the indices handed on {idx_vals}")
+            drawn = idx_vals
+        if k != B:
+            problems.append(f"sampler.sample({B}, …) returned a batch of {k} rows")
+        if one_extra != 0:
+            problems.append(f"the 1-step batch has batch_size {list(experiences.batch_size)}")
+        if per and ("weights" not in experiences.keys() or experiences["weights"].reshape(-1).shape[0] != k):
+            problems.append("the prioritised batch carries no weights for its rows")
+        n_extra = 0
+        if n_step_experiences is not None:
+            nbs = list(n_step_experiences.batch_size)
+            n_extra = len(nbs) - 1
+            if nbs != [k]:
+                problems.append(f"n-step batch has batch_size {nbs} but the 1-step batch has {k} rows: row i of one is "
+                                f"no longer paired with row i of the other (index tensor of shape "
+                                f"{list(experiences['idxs'].shape)})")
+            kn = int(np.prod(nbs)) if nbs else 0
+            try:
+                n_rows = [decode_cell({f: n_step_experiences[f].reshape(kn, -1)[i] for f in fields}) for i in range(kn)]
+            except Exception as ex:
+                problems.append(f"the n-step batch cannot be read row by row ({type(ex).__name__}: {ex})"[:200])
+            for i in range(min(len(one_rows), len(n_rows))):
+                a, b = one_rows[i], n_rows[i]
+                if a == "MIXED" or b == "MIXED" or a.split(",")[:2] != b.split(",")[:2]:
+                    problems.append(f"row {i}: 1-step batch has {a} but n-step batch has {b} — different (obs, action) at "
+                                    f"the same batch position (index {drawn[i] if i < len(drawn) else None})")
+                    break
+        if None in drawn:
+            problems.append(f"a sampled 1-step row is not a stored record: {one_rows}")
+            drawn = [d if d is not None else 0 for d in drawn]
+        ops.append(f"nstep sample {int(per)} {int(has_n)} " + " ".join(str(d) for d in drawn))
+        lines.append(" ".join(one_rows) + " | " + (" ".join(n_rows) if n_step_experiences is not None else "-") +
+                     f" | {one_extra} {n_extra} {idx_txt}")
+        if rep == 0:
+            facts.update({"drawn": drawn, "one_step_rows": one_rows, "n_step_rows": n_rows, "idxs": idx_txt})
+    return lines, ops, problems, facts
+
+
+def sampler_config(rng: random.Random, per: bool, has_n: bool) -> dict:
+    m = rng.choice([1, 2, 2, 3])
+    n = rng.choice([1, 2, 3, 3, 4])
+    batch = rng.choice([2, 3, 4, 5])
+    cap = rng.choice([c for c in range(max(batch, m), 4 * m + 6)])
+    L = rng.randint(n + (batch + m - 1) // m, n + 3 * cap // m + 3)
+    steps = [[[gen_reward(rng), int(rng.random() < 0.25)] for _ in range(m)] for _ in range(L)]
+    return {"kind": "sampler", "per": per, "has_n": has_n, "n": n, "m": m, "cap": cap, "batch": batch,
+            "gamma": list(rng.choice(GAMMAS)), "steps": steps, "samples": 3, "seed": rng.randrange(1 << 30)}
+
+
+def sampler_case(chk: Check, cfg: dict):
+    """returns (diff index | None, problems, impl lines, model lines, facts) or None when the buffer is too empty"""
+    private_driver(chk)
+    try:
+        r = sampler_run(cfg)
+    except Exception as ex:
+        return None, [f"the sampling statements raised {type(ex).__name__}: {ex}"[:300]], [], [], {}
+    if r is None:
+        return None
+    impl, ops, problems, facts = r
+    raw = chk.driver.run(["reset"] + ops)[1:]
+    if any(x == "bad-op" for x in raw):
+        raise InfraError(f"C10 sampler suite: model refused {[o for o, x in zip(ops, raw) if x == 'bad-op'][:2]}")
+    model = [("*" if op.startswith("nstep add") else x) for op, x in zip(ops, raw)]
+    diff = next((i for i, (a, b) in enumerate(zip(impl, model)) if a != b), None)
+    return diff, problems, impl, model, facts
+
+
+def sampler_replay_obj(cfg, problems, impl, model, diff, facts) -> dict:
+    return {"case": cfg, "seed": cfg["seed"], "oracle_problems": problems, "observed": facts,
+            "impl": [x for x in impl if x != "*"], "model": [x for x in model if x != "*"], "diff_at": diff,
+            "how": "real ReplayBuffer / PrioritizedReplayBuffer (+ MultiStepReplayBuffer) filled and sampled through "
+                   "real Sampler objects by the statements of train_off_policy; a sample line is `1-step rows | n-step "
+                   "rows | extra axes of the two batches, extra axes:values of the idxs entry`",
+            "correspondence": "harness/c10.py (sampler suite) vs sampleBlock / samplerMode of Model/NStep.lean"}
+
+
+def sampler_suite(chk: Check, runs: int | None = None, rng: random.Random | None = None) -> int:
+    """returns the number of cases flagged (oracle or model)"""
+    rng = rng or chk.rng
+    selftesting = runs is not None
+    runs = runs if runs is not None else (60 if chk.tier == "quick" else 400)
+    flagged = ndiff = done = 0
+    # Sampler.__init__: every class x dataset / dataloader combination
+    if not selftesting:
+        cases = sampler_mode_cases()
+        private_driver(chk)
+        raw = chk.driver.run(["reset"] + [f"nstep mode {c} {ds} {lg} {lt}" for c, ds, lg, lt in cases])[1:]
+        for (c, ds, lg, lt), want in zip(cases, raw):
+            try:
+                got = sampler_mode_impl(c, ds, lg, lt)
+            except Exception as ex:
+                got = f"raised {type(ex).__name__}: {ex}"[:200]
+            chk.case({"sampler-init": [c, ds, lg, lt]}, nontrivial=True, tags=["sampler-init"])
+            done += 1
+            if got != want:
+                ndiff += 1
+                flagged += 1
+                standard_ok = (c in ("prioritized", "multistep", "replay") and (ds, lg, lt) == (0, 0, 0))
+                chk.violation(f"Sampler(memory={c}, dataset={'given' if ds else None}, dataloader="
+                              f"{'DataLoader' if lt else ('object' if lg else None)}) installs `{got}` but the model "
+                              f"(samplerMode) says `{want}`",
+                              {"case": {"kind": "sampler-init", "cls": c, "dataset": ds, "loader": lg, "torch_loader": lt},
+                               "impl": got, "model": want}, no_input=not standard_ok)
+    cfgs = []
+    if not selftesting:
+        for f in sorted((ROOT / "corpus" / "C10").glob("*.json")):
+            c = json.loads(f.read_text())
+            c = c.get("replay", c)
+            if c.get("case", c).get("kind") == "sampler":
+                cfgs.append(c.get("case", c))
+    for i in range(runs):
+        cfgs.append(sampler_config(rng, bool(i % 2), bool((i // 2) % 2)))
+    for cfg in cfgs:
+        per, has_n = cfg["per"], cfg["has_n"]
+        r = sampler_case(chk, cfg)
+        if r is None:
+            continue
+        diff, problems, impl, model, facts = r
+        done += 1
+        if not selftesting:
+            chk.case({k: v for k, v in cfg.items() if k != "seed"}, nontrivial=True,
+                     sample={"sampler": {k: cfg[k] for k in ("per", "has_n", "n", "m", "cap", "batch")},
+                             "drawn": facts.get("drawn"), "idxs": facts.get("idxs")},
+                     tags=[f"sampler-{'per' if per else 'uniform'}{'+nstep' if has_n else ''}"])
+        if diff is None and not problems:
+            continue
+        flagged += 1
+        ndiff += diff is not None
+        if selftesting or flagged > 1:
+            continue
+        # smaller case that still shows it
+        small, sr = cfg, (diff, problems, impl, model, facts)
+        for cand in (dict(cfg, samples=1), dict(cfg, samples=1, steps=cfg["steps"][:cfg["n"] + cfg["batch"]]),
+                     dict(cfg, samples=1, batch=2), dict(cfg, samples=1, batch=2, steps=cfg["steps"][:cfg["n"] + 2])):
+            try:
+                r2 = sampler_case(chk, cand)
+            except InfraError:
+                continue
+            if r2 is not None and bool(r2[1]) == bool(problems) and (r2[1] or r2[0] is not None):
+                small, sr = cand, r2
+        diff, problems, impl, model, facts = sr
+        if problems:
+            chk.violation(f"sampling path ({'per' if per else 'uniform'}{' + n-step' if has_n else ''}): {problems[0]}",
+                          sampler_replay_obj(small, problems, impl, model, diff, facts))
+        else:
+            chk.violation(f"sampling path ({'per' if per else 'uniform'}{' + n-step' if has_n else ''}): batch differs from "
+                          f"the model: impl `{impl[diff]}` model `{model[diff]}`; row i of both batches still describes the "
+                          f"same (obs, action)", sampler_replay_obj(small, problems, impl, model, diff, facts), no_input=True)
+    if not selftesting:
+        chk.suite("sampler", done, ndiff)
+        chk.corr["model_lines"] += done * 4
+    return flagged
+
+
+
 # ----------------------------------------------------------------------------- source translation
 def pre_gate(chk: Check) -> None:
     """regenerate lean/Gen/NStepGen.lean from the source text of the tree under test and re-check
@@ -1258,11 +1560,19 @@ def pre_gate(chk: Check) -> None:
     # first the equalities alone, so that a broken equality is named (Props.C10 also imports Props.C09 and
     # with it the translation of ReplayBuffer.add, whose errors would otherwise come first in the log) …
     common.translation_gate(chk, py2lean_nstep, "Gen/NStepGen.lean", ["Gen.NStepGen", "Proofs.NStepGenEq"], what)
+    # the sampling path: replay_buffer.py (sample / sample_from_indices / class statements), sampler.py, the sampler
+    # set-up + storing statements + learn blocks of train_off_policy
+    import py2lean_sampler
+    what2 = "ReplayBuffer/PrioritizedReplayBuffer.sample, sample_from_indices, Sampler, sampling block of train_off_policy"
+    common.translation_gate(chk, py2lean_sampler, "Gen/SamplerGen.lean", ["Gen.SamplerGen", "Proofs.SamplerGenEq"], what2)
     info = chk.corr.get("source_translation", {}).get("Gen/NStepGen.lean", {})
-    if info.get("status") == "equal-to-model":
+    info2 = chk.corr.get("source_translation", {}).get("Gen/SamplerGen.lean", {})
+    if info.get("status") == "equal-to-model" and info2.get("status") == "equal-to-model":
         # … then the theorems restated over the generated definitions
-        common.translation_gate(chk, py2lean_nstep, "Gen/NStepGen.lean",
-                                ["Gen.NStepGen", "Proofs.NStepGenEq", "Props.C10"], what)
+        all_targets = ["Gen.NStepGen", "Proofs.NStepGenEq", "Gen.SamplerGen", "Proofs.SamplerGenEq", "Props.C10"]
+        common.translation_gate(chk, py2lean_nstep, "Gen/NStepGen.lean", all_targets, what)
+        if chk.corr["source_translation"]["Gen/NStepGen.lean"].get("status") == "equal-to-model":
+            common.translation_gate(chk, py2lean_sampler, "Gen/SamplerGen.lean", all_targets, what2)
 
 
 # ----------------------------------------------------------------------------- check
@@ -1294,9 +1604,19 @@ def run(chk: Check) -> None:
                              "output is proved equal to the model in Proofs/NStepGenEq.lean) and its fixed prelude: "
                              "TensorDict as five per-environment vectors, element-wise tensor arithmetic, "
                              "deque(maxlen).append, .clone()/.to(device) as identity")
+    chk.rule += ("; plus the sampler suite: real Sampler objects in all flag combinations (standard, per, n_step, per + "
+                 "n_step; every class x dataset x dataloader combination for __init__) on provenance-encoded buffers "
+                 "filled and sampled by the statements of train_off_policy, every batch diffed row by row with sampleBlock")
+    chk.trusted_extra.append("harness/py2lean_sampler.py (translator of the sampling path: ReplayBuffer.sample, "
+                             "PrioritizedReplayBuffer.sample, sample_from_indices, Sampler, the sampling / storing "
+                             "statements of train_off_policy; output proved equal to the model in Proofs/SamplerGenEq.lean) "
+                             "and its fixed prelude: a buffer as class + index->record storage, an index tensor as values + "
+                             "number of extra axes, random draws / segment-tree code / the learner as explicit parameters")
     cases = []
     for f in sorted((ROOT / "corpus" / "C10").glob("*.json")):
         c = json.loads(f.read_text())
+        if c.get("case", c).get("kind") == "sampler":
+            continue                              # replayed by the sampler suite below
         cases.append((c.get("case", c), c.get("seed", 0)))
     for _ in range(n_cases):
         case, cs = gen_case(rng, chk.tier), rng.randrange(1 << 30)
@@ -1318,6 +1638,7 @@ def run(chk: Check) -> None:
     chk.suite("nstep-streams", len(cases), ndiff)
     chk.corr["model_lines"] += sum(len(c["steps"]) + 3 for c, _ in cases)
     loop_suite(chk)
+    sampler_suite(chk)
     consumer_suite(chk)
     if chk.tier == "thorough":
         selftest(chk)
@@ -1401,6 +1722,29 @@ def selftest(chk: Check) -> None:
     for field in ("done", "reward", "next_obs"):
         caught[f"consumer:n-step-{field}-from-1-step-batch"] = consumer_suite(
             chk, learn_patch=swapped(field), runs=16, rng=random.Random(4242))
+    # sampling path: an n-step sampler that keeps the (batch, 1) index column, a 1-step buffer that hands on other
+    # indices than the ones it used, a sampler that reads the n-step storage one slot off
+    from agilerl.components import sampler as smp_mod
+
+    def with_patch(obj, name, fn, label):
+        orig = getattr(obj, name)
+        setattr(obj, name, fn)
+        try:
+            caught[label] = sampler_suite(chk, runs=24, rng=random.Random(99))
+        finally:
+            setattr(obj, name, orig)
+    with_patch(smp_mod.Sampler, "sample_n_step", lambda self, idxs: self.memory.sample_from_indices(idxs),
+               "sampler:index-column-not-flattened")
+
+    def stale_idx_sample(self, batch_size, return_idx=False):
+        indices = torch.randperm(self.size)[:batch_size]
+        samples = self._storage[indices]
+        if return_idx:
+            samples["idxs"] = torch.randperm(self.size)[:batch_size]
+        return samples
+    with_patch(rb.ReplayBuffer, "sample", stale_idx_sample, "sampler:idxs-of-another-draw")
+    with_patch(rb.MultiStepReplayBuffer, "sample_from_indices",
+               lambda self, idxs: self.storage[(idxs + 1) % len(self)], "sampler:n-step-read-one-slot-off")
     blind = [v for v, c in caught.items() if c == 0]
     if blind:
         raise InfraError(f"C10 self-test: seeded faults not noticed: {blind}")
@@ -1431,6 +1775,31 @@ def replay(chk: Check, path: str) -> int:
         if problems:
             print(f"VIOLATION property=C10 replay={path}")
             print(f"  -> {problems[0]}"[:700])
+            return 1
+        return 0
+    if case.get("kind") == "sampler-init":
+        want = chk.driver.run(["reset", f"nstep mode {case['cls']} {case['dataset']} {case['loader']} {case['torch_loader']}"])[1]
+        got = sampler_mode_impl(case["cls"], case["dataset"], case["loader"], case["torch_loader"])
+        print(json.dumps({"case": case, "impl": got, "model": want}))
+        if got != want:
+            print(f"VIOLATION property=C10 replay={path}")
+            print(f"  -> Sampler.__init__ installs `{got}`, the model says `{want}`")
+            return 1
+        return 0
+    if case.get("kind") == "sampler":
+        r = sampler_case(chk, case)
+        if r is None:
+            print("buffer holds fewer records than one batch")
+            return 0
+        diff, problems, impl, model, facts = r
+        print(json.dumps({k: v for k, v in sampler_replay_obj(case, problems, impl, model, diff, facts).items()
+                          if k not in ("how", "correspondence")}, indent=1, default=str))
+        if problems:
+            print(f"VIOLATION property=C10 replay={path}")
+            print(f"  -> {problems[0]}"[:600])
+            return 1
+        if diff is not None:
+            print(f"VIOLATION property=C10 replay={path} no-failing-input-found")
             return 1
         return 0
     if case.get("kind") == "train-loop":
